@@ -431,11 +431,8 @@ func c04StoreFn(c *Ctx, k *core, f *ssa.Function) {
 		}
 
 		// publish-after-store: updatesChan sends and reply nil-sends
-		for _, op := range chanOps(f) {
-			if !op.Send {
-				continue
-			}
-			if chanIsField(op.Chan, k.fUpdates) {
+		for _, op := range k.eventsSendsIn(f) {
+			{
 				okd := domI(si, op.Instr) && !op.Blocking
 				c.check(okd, "publish-after-store", name+"#events-send", op.Instr.Pos(),
 					"Events send is non-blocking and dominated by the store", "Events send is blocking or not dominated by the store")
